@@ -187,7 +187,7 @@ func c16Trees() []histCase {
 		"layouts/main": "<html>@reserve(\"title\")|@reserve(\"body\")</html>",
 		"comp":         "<c>{{ label }}@slot</c>",
 		"home":         "@use(\"~main\")@insert(\"title\", name)@insert(\"body\")@each(i in items)[{{ i }}]@end@component(\"comp\", {label: name})\n@slot s@end\n@end;@end",
-		"plain":        "plain {{ name }} {{ {b: 2, a: 1} }}",
+		"plain":        "plain {{ name }} {{ {b: 2, a: 1} }} {{ \"Tom & <Jerry> &amp; 'co'\" }}@each(i in items)[{{ \"<i>\" }}]@end{{ \"a&b\".raw() }}",
 		"failing":      "before\n\n{{ name + 1 }}",
 		"failing2":     "line1\n@if(flag)\n{{ missing.prop }}\n@end",
 		"inloop":       "@each(i in items)<{{ i }}>@if(i == 2){{ 1 / 0 }}@end@end",
